@@ -19,10 +19,10 @@ POOLS = {
     "tiny":    ["1e-150", "1e-160", "1e-170", "1e-300", "1e-323", "5e-324"],
     "mixed":   ["0.9", "0.5", "0.3", "0.25", "0.1", "1e-160", "5e-324"],
 }
-POOL_NAMES = ["dyadic", "decimal", "tie", "normalised", "mixed", "tiny", "ratio", "longtail"]
+POOL_NAMES = ["dyadic", "decimal", "tie", "normalised", "mixed", "tiny", "ratio", "longtail", "ulp"]
 
 ALPHA_CHARS = "abcxyz"
-SPECIAL_ALPHA = ["é", "ф", "α", "ñ", "ß", "ŉ", "ﬁ", "ǆ"]   # 1:1 case maps, plus letters whose upper() is 2 characters
+SPECIAL_ALPHA = ["é", "ф", "α", "ñ", "ß", "ŉ", "ﬁ", "ǆ", "\u7801", "\u05d0", "\u0645"]   # 1:1 case maps, plus letters whose upper() is 2 characters
 DIGITS = "0123456789"
 ODD_CHARS = ["\u00a0", "\u3000", "\u2003", "\u200f", "\u00ad", "\u200d", "\ue000"]
 OTHERS = "!@#$ .-_"
@@ -41,6 +41,19 @@ def _descending_probs(t, pool, k):
         counts = menu[start:start + min(k, len(menu))]
         total = sum(counts) + t.choice([0, 0, 1, 3])
         return [repr(c / total) for c in counts]
+    if pool == "ulp":
+        # neighbours that are different doubles but agree in the first 12-15 significant digits (count ratios of a huge
+        # list, or a file another tool re-normalised): distinct probabilities, however close
+        import math
+        p = t.choice([0.3, 0.1234567890123454, 0.06172839450617262, 0.5000000000000001, 0.2000000000000002])
+        out = []
+        for _ in range(k):
+            out.append(repr(p))
+            for _s in range(t.between(1, 4)):
+                p = math.nextafter(p, 0.0)
+            if t.chance(1, 3):
+                p = p * 0.5
+        return out
     if pool == "longtail":
         # values seen once in 10^3 .. 10^8: products of a few of them land around and below the machine epsilon
         # (2.2e-16), where an absolute tolerance in a comparison stops separating distinct probabilities
@@ -124,6 +137,10 @@ def gen_variable(t, name, pool, max_groups=4, max_group_size=3, hostile=False):
         vals = _values_for(t, kind, n, size, used, hostile)
         if vals:
             groups.append([p, vals])
+    if hostile and groups and kind in "ADO" and t.chance(1, 12):
+        # the first value of the file starts with U+FEFF (content, not a signature: passwords cut out of files that were
+        # glued together from "UTF-8 with BOM" pieces)
+        groups[0][1][0] = "\ufeff" + groups[0][1][0][1:]
     if not groups:
         groups = [[probs[0], _values_for(t, kind, n, 1, set(), False) or ["a" * n]]]
     if kind == "C" and not any("L" * n in g[1] for g in groups) and t.chance(1, 2):
@@ -232,7 +249,7 @@ def gen_syn(t, allow_m=True, max_pts=600, hostile=False, force_m=False, omen=Non
         structs.append("".join(reps))
     if t.chance(1, 6) and structs:
         structs.append(structs[0])          # duplicate base structure line
-    probs_src = _descending_probs(t, {"tiny": "mixed", "longtail": "decimal"}.get(base_probs_pool, base_probs_pool), min(4, len(structs)))
+    probs_src = _descending_probs(t, {"tiny": "mixed", "longtail": "decimal", "ulp": "decimal"}.get(base_probs_pool, base_probs_pool), min(4, len(structs)))
     base = []
     for i, s in enumerate(structs):
         base.append([s, probs_src[min(i, len(probs_src) - 1)] if not t.chance(1, 5) else probs_src[t.draw(len(probs_src))]])
@@ -259,7 +276,7 @@ def gen_syn(t, allow_m=True, max_pts=600, hostile=False, force_m=False, omen=Non
             # the trainer lists levels by descending probability, which need not be ascending level number (a small list
             # often has level 3 more probable per guess than level 2)
             lv = t.shuffle(lv)
-        pp = _descending_probs(t, "dyadic" if pool in ("tiny", "longtail") else pool, len(lv))
+        pp = _descending_probs(t, "dyadic" if pool in ("tiny", "longtail", "ulp") else pool, len(lv))
         if len(pp) >= 2 and t.chance(1, 6):
             pp[1] = pp[0]               # two Markov levels of exactly equal probability form one group
         spec["omen_prob"] = [[str(l), p] for l, p in zip(lv, pp)]
